@@ -484,22 +484,16 @@ func (r *renderState) filterRaw(rawHTML []byte) {
 
 func appendAltText(dst []byte, source []byte, parent *Inline) []byte {
 	stack := []*Inline{parent}
-	hasAttr := false
+	dst = append(dst, ` alt="`...)
 	for len(stack) > 0 {
 		curr := stack[len(stack)-1]
 		stack = stack[:len(stack)-1]
 		switch curr.Kind() {
 		case TextKind:
-			if !hasAttr {
-				dst = append(dst, ` alt="`...)
-				hasAttr = true
-			}
-			dst = append(dst, curr.Text(source)...)
+			dst = escapeHTML(dst, spanSlice(source, curr.Span()))
+		case CharacterReferenceKind:
+			dst = append(dst, spanSlice(source, curr.Span())...)
 		case IndentKind, SoftLineBreakKind, HardLineBreakKind:
-			if !hasAttr {
-				dst = append(dst, ` alt="`...)
-				hasAttr = true
-			}
 			dst = append(dst, ' ')
 		case LinkDestinationKind, LinkTitleKind, LinkLabelKind:
 			// Ignore.
@@ -508,9 +502,6 @@ func appendAltText(dst []byte, source []byte, parent *Inline) []byte {
 				stack = append(stack, curr.children[i])
 			}
 		}
-	}
-	if !hasAttr {
-		dst = append(dst, `alt="`...)
 	}
 	dst = append(dst, `"`...)
 	return dst
